@@ -399,9 +399,12 @@ class ModuleVistor(NodeVisitor):
             if ob is None:
                 current.report("cannot resolve re-exported name :"
                                         f'{modname}.{origin_name}', thresh=1)
-            elif isinstance(ob, model.Module) and not isinstance(current, model.Package):
+            elif isinstance(ob, model.Module) and (
+                    not isinstance(current, model.Package) or 
+                    ob.state is model.ProcessingState.PROCESSING):
                 # A module can only be documented as part of a package: 
                 # when re-exported by a plain module it stays where it is.
+                # Neither can it be moved while it is being processed itself.
                 pass
             else:
                 if origin_module.all is None or origin_name not in origin_module.all:
